@@ -14,6 +14,7 @@ import (
 	"testing"
 	"testing/synctest"
 	"time"
+	"unicode/utf8"
 
 	zxcvbn "github.com/nbutton23/zxcvbn-go"
 	"github.com/whawty/auth/zz_verif/vlib"
@@ -27,6 +28,7 @@ type c12Login struct {
 }
 
 type c12Case struct {
+	Tmp    string       `json:"tmp"` // state of <base>/.tmp: "" absent | dir | file (a regular file: every rewrite must fail cleanly)
 	Cfg    *vlib.Config `json:"cfg"`
 	Users  []seedUser   `json:"users"`
 	Mode   string       `json:"mode"` // "" | local | remote-ok | remote-unreachable
@@ -40,11 +42,13 @@ func genC12(t *rapid.T) c12Case {
 	c := c12Case{Cfg: vlib.GenConfig(t, 4)}
 	c.Mode = rapid.SampledFrom([]string{"", "local", "local", "local", "remote-ok", "remote-unreachable"}).Draw(t, "mode")
 	c.Policy = rapid.SampledFrom([]string{"", "", "score >= 2", "score >= 3", "entropy >= 30"}).Draw(t, "policy")
+	c.Tmp = rapid.SampledFrom([]string{"", "", "", "dir", "file"}).Draw(t, "tmp")
 	names := []string{"bob", "Bob", "alice", "b@x-_."}
 	for i, n := 0, rapid.IntRange(1, 4).Draw(t, "nusers"); i < n; i++ {
 		aux, _ := vlib.GenAux(t, "aux", false)
 		c.Users = append(c.Users, seedUser{Name: names[i], Admin: rapid.Bool().Draw(t, "admin"),
-			PW:  rapid.SampledFrom([]string{"a", "password", "bob2020", "Tr0ub4dor&3", "correct horse battery staple 9x!", "zq9#Lm2$vX7@pR4", "pässwörd-ünïcode-lang-genug", "with:colon and space"}).Draw(t, "pw"),
+			PW:  rapid.SampledFrom([]string{"a", "password", "bob2020", "Tr0ub4dor&3", "correct horse battery staple 9x!", "zq9#Lm2$vX7@pR4", "pässwörd-ünïcode-lang-genug", "with:colon and space",
+				"latin1-p\xe4ssw\xf6rd-lang-genug-9!", "raw\xff\xfebytes\x80\x81 zq9#Lm2$vX7"}).Draw(t, "pw"),
 			PID: c.Cfg.Sets[rapid.IntRange(0, len(c.Cfg.Sets)-1).Draw(t, "pid")].ID, Aux: aux})
 	}
 	for i, n := 0, rapid.IntRange(1, 8).Draw(t, "nlogins"); i < n; i++ {
@@ -139,6 +143,13 @@ func runC12(c c12Case) string {
 	if err != nil {
 		return "VERIF-INFRA " + err.Error()
 	}
+	switch c.Tmp {
+	case "dir":
+		os.Mkdir(filepath.Join(e.base, ".tmp"), 0o700)
+	case "file":
+		os.WriteFile(filepath.Join(e.base, ".tmp"), []byte("not a directory"), 0o600)
+		vlib.Class("work-area-unusable(.tmp is a regular file)")
+	}
 	pid := map[string]uint{}
 	for _, u := range c.Users {
 		pid[u.Name] = u.PID
@@ -160,6 +171,9 @@ func runC12(c c12Case) string {
 		others := before.Diff(after, true, func(r string) bool { return r == rel || r == "." || r == ".tmp" })
 		if len(others) > 0 {
 			return fmt.Sprintf("VIOLATION C12: [%s] login of %q changed other entries: %v", where, u.Name, others)
+		}
+		if _, gone := after[rel]; !gone {
+			return fmt.Sprintf("VIOLATION C12: [%s] after a login of %q its record is gone (a failed rewrite must leave the record untouched)", where, u.Name)
 		}
 		if t, ok := after[".tmp"]; ok && t.Mode.IsDir() {
 			if ents, _ := os.ReadDir(filepath.Join(env.base, ".tmp")); len(ents) > 0 {
@@ -221,6 +235,13 @@ func runC12(c c12Case) string {
 			return fmt.Sprintf("VIOLATION C12: authenticate reports upgradeable=%v for %q with pid %d and default %d", upgL, u.Name, pid[u.Name], c.Cfg.Default)
 		}
 		vlib.Eval()
+		if !utf8.ValidString(pw) && (l.Frontend == "api-authenticate" || l.Frontend == "api-update-oldpw") {
+			vlib.Excluded("JSON cannot carry non-UTF-8 password bytes")
+			l.Frontend = "sasl-callback"
+		}
+		if !utf8.ValidString(u.PW) && l.Right {
+			vlib.Class("login:password-with-invalid-utf8")
+		}
 		if l.Frontend == "ldap-bind" && strings.Contains(u.Name, "@") {
 			// LDAP cuts the bind name at the first '@' (by specification): such a user cannot log in there
 			vlib.Excluded("ldap-bind for a user name containing '@'")
@@ -248,7 +269,7 @@ func runC12(c c12Case) string {
 				}
 			}
 		default: // local, right password
-			must := upgradeable && policyPasses(c.Policy, u.PW, u.Name)
+			must := upgradeable && policyPasses(c.Policy, u.PW, u.Name) && c.Tmp != "file"
 			if msg := judgeUpgrade(e, pid, u, before, must, "local"); msg != "" {
 				return msg + fmt.Sprintf(" (login #%d via %s)", i, l.Frontend)
 			}
